@@ -216,3 +216,9 @@ def path_pairs(rep, files):
     # longer stale files, upper-case extension; bytes on disk == in-memory bytes, path-based readers == in-memory reads
     P.path_situations(rep, files, "c04")
     rep.cov["path_created_pairs"] = rep.cov.get("path_route_files", 0)
+    # which file is the index of a .shp opened by path, against the directory model (Model/Paths.v; lib/pathmodel.py)
+    import os
+    import pathmodel
+    import random
+    pathmodel.stage(rep, os.path.join(sfv.TARGET, "debug", "runner"), random.Random(rep.seed * 7919 + 4), "c04p", 0,
+                    500 if rep.tier == "thorough" else 120)
